@@ -168,6 +168,11 @@ def run(tier, seed, replay):
     for i in range(nstream):
         script += ["new", "size %d %d" % rng.choice([(100, 40), (76, 28), (80, 24), (20, 10), (200, 60), (75, 27), (3, 3), (1, 1)])]
         script += [tc.key_line(k) for k in random_stream(rng, slen)]
+    # deterministic completion probes: every completion path with multi-byte text and the cursor at every position
+    for text in ["load ", "load ä", "load uä", "load €€x", "load /tmp/ä", "load 😀", "lä", "sä€", "Fä", "FCä", "F😀", "FD", "FEx", "FFFFF", "load", "x"]:
+        for back in range(0, len(text) + 1):
+            for key in ("tab", "backtab"):
+                script += ["new"] + [tc.key_line(("char", ord(c))) for c in text] + ["left"] * back + [key, key, "char 120", key, "enter", "enter"]
     sw = (120, 60) if tier == "quick" else (250, 100)
     for prep in (["new"], ["new"] + [tc.key_line(k) for k in [("char", ord(c)) for c in "ääää€€€€😀😀 long text " * 6] + ["left"] * 7],
                  ["new"] + [tc.key_line(k) for k in tc.type_line("bogus command")], ["new"] + [tc.key_line(k) for k in tc.type_line("show memory")]):
